@@ -4,12 +4,13 @@ set -e
 out=$1; shift
 mkdir -p "$out"
 REPO=${REPO:-/repo}
+HERE="$(cd "$(dirname "$0")" && pwd)"   # fallback/config.h: configure output of this sandbox, used only when $REPO/src/config.h is absent (fresh git snapshot)
 SRCS="myth_log myth_sched myth_internal_barrier myth_bind_worker myth_worker myth_sync myth_init myth_misc myth_tls myth_thread myth_context myth_if_native myth_real myth_eco"
 WRAP=${WRAP:-MYTH_WRAP_VANILLA}
 if [ "$WRAP" != MYTH_WRAP_VANILLA ]; then SRCS="$SRCS myth_wrap_pthread myth_wrap_malloc myth_wrap_socket"; fi
 pids=()
 for f in $SRCS; do
-  ( ${CC:-gcc} -c -w -D_GNU_SOURCE -D_XOPEN_SOURCE -D_DARWIN_C_SOURCE -DMYTH_WRAP=$WRAP -I$REPO/include -I$REPO/src "$@" $REPO/src/$f.c -o "$out/$f.o" ) &
+  ( ${CC:-gcc} -c -w -D_GNU_SOURCE -D_XOPEN_SOURCE -D_DARWIN_C_SOURCE -DMYTH_WRAP=$WRAP -I$REPO/include -I$REPO/src -I$HERE/fallback "$@" $REPO/src/$f.c -o "$out/$f.o" ) &
   pids+=($!)
 done
 rc=0
